@@ -7,7 +7,7 @@ COQ_HEADER = "From Plotink Require Import Base.Prelude Base.PyStr Model.Serial3 
 COQ_RUN = "run04"
 COQ_CASE_TYPE = "case04"
 SHARD = 60
-RULE = ("systematic: every one of the 32 request methods called on an object that is (a) never connected, (b) connected and latched by each error kind "
+RULE = ("requests made of several exchanges (chunked pause, motor set-up, 32-bit variables, pin configuration) with a fault / error line / wrong name / silence at every exchange (nothing may be written after the record, observed at record_error); systematic: every one of the 32 request methods called on an object that is (a) never connected, (b) connected and latched by each error kind "
         "(timeout, unexpected reply, device error line, USB exception, unsupported firmware, failed handshake, no device), (c) disconnected after an error, "
         "(d) reconnected while latched, (d') public record_error calls with empty / blank / ordinary first messages followed by further errors (judged by the harness on the err text),  (e) closed by disconnect / reboot / bootload, with and without the port's close() raising, then reconnected; plus random histories of up to 12 calls against a conforming-device script with one disturbance "
         "(fault / 26 empty reads / error line / wrong-name line / extra empties) at a random I/O position; the fake port records every write; "
@@ -80,6 +80,20 @@ def generate(rng, tier):
                         calls += [("connect", S.GOOD_PORTS, None), S.random_call(rng)]
                     cases.append({"calls": calls, "events": ev, "close_raises": close_raises,
                                   "family": "closed:%s%s/%s" % (closer[0], "+close-fault" if close_raises else "", m)})
+    # an error recorded in the middle of a request that consists of several exchanges (a long pause sent in chunks, the motor set-up
+    # sequence, the four variable slots of a 32-bit value, pin configuration): nothing further may be transmitted, by that request or later ones
+    multi = [("pause", 1600), ("pause", 2300), ("pause", 751), ("motors_on", 0, 3), ("motors_on", 2, 0), ("motors_on", 0, 5), ("var_write32", -2, 7),
+             ("var_read32", 9), ("b_config", 3, 1, 1), ("write_nick", "Bot")]
+    for _ in range(reps):
+        for c in multi:
+            nom = S.nominal(c, rng)
+            for i in range(len(nom)):
+                for kind, repl in (("fault", ["F"]), ("errline", [("L", "!Err: 5")]), ("wrongname", [("L", "ZZ,1")]), ("silence", ["E"] * 30)):
+                    if kind in ("errline", "wrongname") and nom[i] == "E": continue
+                    ev = S.connect_script() + nom[:i] + repl + nom[i + 1:]
+                    tail = [S.random_call(rng)]
+                    for t in tail: ev += S.nominal(t, rng)
+                    cases.append({"calls": [("connect", S.GOOD_PORTS, None), c] + tail, "events": ev, "family": "mid-call:%s@%d/%s" % (kind, i, c[0])})
     # record_error is public: the first recorded message (whatever text it is, the empty string included) stays, later ones are dropped;
     # judged by the harness itself on the err attribute (the model records error kinds, not texts)
     for first in ["", " ", "0", "USB cable fault", "None"]:
@@ -129,9 +143,10 @@ def coq_case(c, r):
     if "rec" in c:
         if r.get("rec_ok"): return "(K04 %s [] [] [])" % S.coq_cfg(*CFG)
         return "(K04 %s [] [(CStatus, mkobs true RNone [] None false None 0%%nat)] [])" % S.coq_cfg(*CFG)
-    if "raise" in r or any(o["raised"] == "RecordedErrorErased" for o in r["obs"]):
+    if "raise" in r or any(o["raised"] in ("RecordedErrorErased", "WroteAfterRecordedError") for o in r["obs"]):
         # the harness could not run the history, or an error that was recorded during a call had vanished when the call returned
-        # ("the recorded message is never replaced" - nor dropped): no reading of the observations can satisfy the property
+        # ("the recorded message is never replaced" - nor dropped), or a request went on transmitting after it had recorded an error
+        # ("every later command ... writes no bytes"): no reading of the observations can satisfy the property
         return "(K04 %s [] [(CStatus, mkobs true RNone [] None false None 0%%nat)] [])" % S.coq_cfg(*CFG)
     from common import clist, cb
     return "(K04 %s %s %s %s)" % (S.coq_cfg(*CFG), S.coq_script(c["events"]), S.coq_history(c["calls"], r["obs"]),
